@@ -162,6 +162,11 @@ class Reporter:
             json.dump(ev, fh, indent=1, sort_keys=True, default=repr)
         os.replace(tmp, os.path.join(EVIDENCE_DIR, f"{self.pid}.json"))
         if self.violations:
+            # every violation key of this run (replay files are written for the first MAX_REPORTED only)
+            os.makedirs(REPLAY_DIR, exist_ok=True)
+            with open(os.path.join(REPLAY_DIR, f"{self.pid}-all-violations.jsonl"), "w") as fh:
+                for v in self.violations:
+                    fh.write(json.dumps({"key": v["key"], "what": v["what"][:400]}, sort_keys=True, default=repr) + "\n")
             print(f"[{self.pid}] {len(self.violations)} distinct violation(s); known findings hit: "
                   f"{sum(self.known_hit.values())}", flush=True)
             return 1
